@@ -28,6 +28,7 @@
 #include <type_traits>
 #include <unordered_map>
 #include <sys/syscall.h>
+#include <dlfcn.h>
 #include <unistd.h>
 #include <vector>
 
@@ -417,19 +418,30 @@ steady_clock::time_point steady_clock::now() noexcept
 }}}
 
 // ---- output interposition: the moment a `bestmove` line has become visible to the GUI is a schedule point of the thread that wrote it.
-// VERIF_PARK="8:1:ms" parks that thread right AFTER the write (it reports PARKED on stderr), so that the GUI's next command arrives
-// while the thread has not yet done whatever it does after answering.
+// std::cout is synchronised with stdio here, so the text goes through fwrite into the C stream and becomes visible at the fflush that
+// std::endl performs.  VERIF_PARK="8:1:ms" parks the writing thread right AFTER that flush (it reports PARKED on stderr), so that the
+// GUI's next command arrives while the thread has not yet done whatever it does after answering.
 static int g_afterbest_ms = 0;
-extern "C" ssize_t write(int fd, const void* buf, size_t n)
+static thread_local bool t_best_pending = false;
+extern "C" size_t fwrite(const void* buf, size_t sz, size_t n, FILE* f)
 {
-    ssize_t r = syscall(SYS_write, fd, buf, n);
-    if (fd == 1 && g_afterbest_ms > 0 && n >= 8 && std::this_thread::get_id() != g_main_thread && memmem(buf, n, "bestmove", 8) != nullptr)
+    static auto real = reinterpret_cast<size_t (*)(const void*, size_t, size_t, FILE*)>(dlsym(RTLD_NEXT, "fwrite"));
+    if (g_afterbest_ms > 0 && f == stdout && sz * n >= 8 && memmem(buf, sz * n, "bestmove", 8) != nullptr)
+        t_best_pending = true;
+    return real(buf, sz, n, f);
+}
+extern "C" int fflush(FILE* f)
+{
+    static auto real = reinterpret_cast<int (*)(FILE*)>(dlsym(RTLD_NEXT, "fflush"));
+    int r = real(f);
+    if (t_best_pending && (f == stdout || f == nullptr))
     {
+        t_best_pending = false;
         static std::atomic<int> once{0};
-        if (once++ == 0)
+        if (std::this_thread::get_id() != g_main_thread && once++ == 0)
         {
             const char msg[] = "PARKED point=afterbest\n";
-            syscall(SYS_write, 2, msg, sizeof msg - 1);
+            (void)!syscall(SYS_write, 2, msg, sizeof msg - 1);
             timespec req{g_afterbest_ms / 1000, (g_afterbest_ms % 1000) * 1000000L};
             nanosleep(&req, nullptr);
         }
